@@ -950,7 +950,8 @@ class Container:
             # we will get a negative 0 answer.
             if source_container.contents[substance] == -0.0:
                 source_container.contents[substance] = 0.0
-        if source_container.has_liquid():
+        if source_container.has_liquid() and ratio * source_container.volume > 0:
+            # (a liquid held at amount 0 next to solids without volume is no volume to state)
             transfer = Unit.convert_from_storage(ratio * source_container.volume, 'L')
             transfer, unit = Unit.get_human_readable_unit(transfer, 'L')
         else:
